@@ -501,6 +501,9 @@ def specSAlgebra (cmd : List Bytes) (op : Nat) (store : Bool) : Verdict :=
   if (store && cmd.length < 3) || (!store && cmd.length < 2) then errNoChange now a else
   let keys := if store then cmd.drop 2 else cmd.drop 1
   let dest := cmd.getD 1 []
+  -- an operand entry without a value (left behind by an expiry write on a dead key: a listed finding of C08 / C04)
+  -- is neither a set nor another type: the property does not say how it reads
+  if keys.any (fun k => match a.get k with | some e => e.val == .nilv | none => false) then unspec else
   if op == 1 && !store && keys.any (fun k => setOf? a k == some none) then
     -- an absent operand makes the intersection empty whatever the other operands hold
     noChange now a fun r => r.isTextsPerm [] || r.isErr
